@@ -369,6 +369,16 @@ func compile(n *node, goInt bool, build, layout string) (cp *compiled) {
 		return
 	}
 	var err error
+	if build == "newfilter" {
+		var f *jp.Filter
+		if f, err = jp.NewFilter("[?" + cp.text + "]"); err != nil {
+			cp.err = "parse-error: " + gens.JPPanicKind(err)
+			return
+		}
+		cp.script = &f.Script
+		cp.expr = jp.Expr{jp.Root('$'), f}
+		return
+	}
 	if cp.script, err = jp.NewScript(cp.text); err != nil {
 		cp.err = "parse-error: " + gens.JPPanicKind(err)
 		return
@@ -1090,13 +1100,15 @@ func shape(n *node, classes map[*node]string) string {
 	return n.Op
 }
 
-var logicBuilds = [][2]string{{"ctor", ""}, {"parse", "full"}, {"parse", "min"}}
+// newfilter: the text goes through jp.NewFilter, the hand-copied twin of the
+// filter reader inside jp.ParseString (its own precedence correction).
+var logicBuilds = [][2]string{{"ctor", ""}, {"parse", "full"}, {"parse", "min"}, {"newfilter", "min"}}
 
 func runTree(c *core.Ctx, t *node, classes map[*node]string, els []map[string]any, elSpecs []scriptref.VSpec, sample bool) {
 	if t.Leaf() {
 		return // a bare operand at the top is outside the statement
 	}
-	var cps [3]*compiled
+	var cps [4]*compiled
 	for i, b := range logicBuilds {
 		cps[i] = compile(t, false, b[0], b[1])
 		if cps[i].err != "" {
@@ -1132,7 +1144,7 @@ func runTree(c *core.Ctx, t *node, classes map[*node]string, els []map[string]an
 		}
 	}
 	for g, failing := range groups {
-		ps := presentationSig(nil, nil, failing, nil, []string{"ctor", "parse-full", "parse-min"})
+		ps := presentationSig(nil, nil, failing, nil, []string{"ctor", "parse-full", "parse-min", "newfilter-min"})
 		sig := core.Sig("logic", "root="+t.Op, "l="+shape(t.L, classes), "r="+shape(t.R, classes), ps[4], ps[5], g)
 		for _, o := range failing {
 			c.Fail(sig, o.cs, o.size, "script is "+o.exp.String(), o.got+"  "+o.cs.Text+" on "+show(o.cs.Elem.Value()))
